@@ -140,8 +140,8 @@ Definition encode_mgs_old (I : mgs_inst) (k : nat) : milp := encode_mgs_gen (mg_
 (* old behaviour (before a068bcc): products bounded by total also when multiplicities are allowed *)
 Definition encode_mgs_pi_old (I : mgs_inst) (k : nat) : milp := encode_mgs_gen (prod_ub I) (mg_total I) I k.
 
-(* ---- solve(): extra_cuts = sum(len(c) - 1 for c in partition_constraints or [])
-               for k in range(lowerbound, max(lowerbound + 1, len(initial_numbers) + 2 + extra_cuts)) ----
+(* ---- solve(): extra_cuts = sum(len(c) - 1 for c in partition_constraints or []); first_k = max(1, lowerbound)
+               for k in range(first_k, max(first_k + 1, len(initial_numbers) + 2 + extra_cuts)) ----
    kOptimal at k: answer k.  kInfeasible: go on with k + 1.  Any other status (time limit, unknown,
    error ...): stop, unsolved.  Result: the ks tried in order, and Some k / None. *)
 Inductive mstatus := MgOptimal | MgInfeasible | MgOther.
@@ -152,7 +152,15 @@ Definition extra_cuts (parts : option (list (list Q))) : Z :=
   | None => 0%Z
   | Some cs => fold_right (fun c s => (Z.of_nat (length c) - 1 + s)%Z) 0%Z cs
   end.
+(* first_k = max(1, lowerbound) (2a5d8e1): a lower bound below 1 must not start the search with the empty model k = 0.
+   [lowerbound : nat] stands for max(0, lowerbound) of the Python int (mgsm_range_z): max(1, lb) = max(1, max(0, lb)). *)
+Definition mgsm_first (lowerbound : nat) : nat := Nat.max 1 lowerbound.
 Definition mgsm_range (lowerbound n_initial : nat) (extra : Z) : list nat :=
+  let f := mgsm_first lowerbound in
+  seq f (Z.to_nat (Z.max (Z.of_nat f + 1) (Z.of_nat n_initial + 2 + extra) - Z.of_nat f)).
+Definition mgsm_range_z (lowerbound : Z) (n_initial : nat) (extra : Z) : list nat := mgsm_range (Z.to_nat lowerbound) n_initial extra.
+(* before 2a5d8e1 the search started at the lower bound itself (kept for the _refuted witness) *)
+Definition mgsm_range_from_lb (lowerbound n_initial : nat) (extra : Z) : list nat :=
   seq lowerbound (Z.to_nat (Z.max (Z.of_nat lowerbound + 1) (Z.of_nat n_initial + 2 + extra) - Z.of_nat lowerbound)).
 
 Fixpoint mgsm_loop_on (status : nat -> mstatus) (ks : list nat) : list nat * option nat :=
@@ -167,6 +175,8 @@ Fixpoint mgsm_loop_on (status : nat -> mstatus) (ks : list nat) : list nat * opt
 
 Definition mgsm_loop (status : nat -> mstatus) (lowerbound n_initial : nat) (extra : Z) : list nat * option nat :=
   mgsm_loop_on status (mgsm_range lowerbound n_initial extra).
+Definition mgsm_loop_from_lb (status : nat -> mstatus) (lowerbound n_initial : nat) (extra : Z) : list nat * option nat :=
+  mgsm_loop_on status (mgsm_range_from_lb lowerbound n_initial extra).
 
 (* the loop as it was before the fixes 03febc7 / 2966290 (kept for the _refuted witnesses of the old
    behaviour): range(lowerbound, max(lowerbound + 1, len(initial_numbers))), every non-optimal status moves on *)
